@@ -67,19 +67,9 @@ async fn stream(addr: std::net::SocketAddr, method: &str, path: &str, body: &str
     (status, id, evs, closed)
 }
 
-async fn flush_subs() {
-    let before = vh::SUBS_FLUSHED.load(SeqCst);
-    vh::FLUSH_GEN.fetch_add(1, SeqCst);
-    let mut verif_bumped = Instant::now();
-    let t0 = std::time::Instant::now();
-    while vh::SUBS_FLUSHED.load(SeqCst) < before + 1 && t0.elapsed() < Duration::from_secs(20) {
-        if verif_bumped.elapsed() > Duration::from_millis(1500) {
-            // a loop that started after the bump took the bumped value as its baseline: bump again
-            vh::FLUSH_GEN.fetch_add(1, SeqCst);
-            verif_bumped = Instant::now();
-        }
-        tokio::time::sleep(Duration::from_millis(2)).await;
-    }
+async fn flush_subs(agent: &klukai_types::agent::Agent) {
+    let ids: Vec<uuid::Uuid> = agent.subs_manager().get_handles().keys().cloned().collect();
+    let _ = crate::util::flush_loops(&ids, 20).await;
 }
 
 /// case: attach <delay_ms> <nops> { W n | F | A off_ms | R k off_ms | S ms }
@@ -132,7 +122,7 @@ pub fn attach(t: &mut Toks) -> String {
                     }
                     tokio::time::sleep(Duration::from_millis(60)).await;  // broadcast_changes -> match_changes
                 }
-                Op::F => flush_subs().await,
+                Op::F => flush_subs(&srv.kit_agent).await,
                 Op::S(ms) => tokio::time::sleep(Duration::from_millis(ms)).await,
                 Op::A(off) => {
                     let b = body.clone();
